@@ -1,6 +1,70 @@
-From LD Require Import Base F32 Data Model Ops Bucket Eval EvalFacts.
-(* first obligation; the full statements of DESIGN.md section 6 are added as they are proved *)
-Theorem C09_invalid_ctx_untouched : forall re_ok re_match o E P f,
-  run re_ok re_match o E P CInvalid f = Done (mkoutcome (err_detail KUserNotSpecified) false []).
-Proof. exact run_invalid. Qed.
-Print Assumptions C09_invalid_ctx_untouched.
+(* C09 Prerequisite semantics and prerequisite events *)
+From LD Require Import Base F32 Data Model Ops Bucket Eval EvalFacts Pure Order Cycles Events Transparent.
+
+(* met iff the flag exists, is not on the current path, its own evaluation completed, it is on, and it served
+   exactly the required variation *)
+Theorem C09_met_iff : forall E ev chain' p,
+  prereq_step E ev chain' p = Done None <->
+  exists pf d, assoc (pq_key p) (e_flags E) = Some pf /\ mem_str (f_key pf) chain' = false /\
+               ev pf = Done (d, true) /\ f_on pf = true /\ d_index d = Some (pq_var p).
+Proof. exact prereq_step_met. Qed.
+Print Assumptions C09_met_iff.
+
+(* listed order, stopping at the first prerequisite that is not met *)
+Theorem C09_listed_order_first_unmet : forall E ev chain' ps out,
+  p_prereqs E ev chain' ps = Done out ->
+  (exists pre p post, ps = pre ++ p :: post /\ Forall (fun q => prereq_step E ev chain' q = Done None) pre /\
+                      prereq_step E ev chain' p = Done (Some out))
+  \/ (Forall (fun q => prereq_step E ev chain' q = Done None) ps /\ out = POk).
+Proof. exact p_prereqs_outcome. Qed.
+Print Assumptions C09_listed_order_first_unmet.
+
+(* lazily: only when the dependent flag is on *)
+Theorem C09_only_when_on : forall re_ok re_match o E P c n chain f,
+  f_on f = false -> p_eval re_ok re_match o E P c (S n) chain f = Done (p_off_value f (plain_reason ROff), true).
+Proof. exact p_eval_off. Qed.
+Print Assumptions C09_only_when_on.
+
+Theorem C09_missing_prerequisite_not_recorded : forall o E ev f chain' p rest st,
+  assoc (pq_key p) (e_flags E) = None ->
+  prereq_loop o E ev f chain' (p :: rest) st = (Done (PFailed (pq_key p)), after_lookup st (pq_key p)).
+Proof. exact prereq_missing. Qed.
+Print Assumptions C09_missing_prerequisite_not_recorded.
+
+(* one event per completed evaluation, emitted after the nested evaluation finished (post-order), carrying the
+   dependent's key, the prerequisite flag, its result, its experiment bit and its summary-exclusion setting *)
+Theorem C09_completed_evaluation_recorded : forall o E ev f chain' p rest pf st d st1,
+  o_recorder o = true ->
+  assoc (pq_key p) (e_flags E) = Some pf -> mem_str (f_key pf) chain' = false ->
+  ev pf (after_lookup st (pq_key p)) = (Done (d, true), st1) ->
+  prereq_loop o E ev f chain' (p :: rest) st =
+  (if prereq_met pf d (pq_var p)
+   then prereq_loop o E ev f chain' rest
+   else ret (PFailed (pq_key p))) (mkst (s_cache st1) (s_status st1) (event_of f pf d :: s_trace st1)).
+Proof. exact prereq_completed_recorded. Qed.
+Print Assumptions C09_completed_evaluation_recorded.
+
+Theorem C09_nothing_after_first_unmet : forall o E ev f chain' p rest rest' pf st d st1,
+  assoc (pq_key p) (e_flags E) = Some pf -> mem_str (f_key pf) chain' = false ->
+  ev pf (after_lookup st (pq_key p)) = (Done (d, true), st1) -> prereq_met pf d (pq_var p) = false ->
+  prereq_loop o E ev f chain' (p :: rest) st = prereq_loop o E ev f chain' (p :: rest') st.
+Proof. exact prereq_unmet_stops. Qed.
+Print Assumptions C09_nothing_after_first_unmet.
+
+(* rule-matching errors and cycles abort the whole evaluation, with no event for the aborted flags *)
+Theorem C09_abort_no_event : forall o E ev f chain' p rest pf st d st1,
+  assoc (pq_key p) (e_flags E) = Some pf -> mem_str (f_key pf) chain' = false ->
+  ev pf (mkst (s_cache st) (s_status st) (OGetFlag (pq_key p) :: s_trace st)) = (Done (d, false), st1) ->
+  prereq_loop o E ev f chain' (p :: rest) st = (Done PAbort, st1).
+Proof. exact prereq_abort_propagates. Qed.
+Print Assumptions C09_abort_no_event.
+
+(* with and without a recorder (and a logger): identical results, identical trace apart from events and log lines *)
+Theorem C09_recorder_optional : forall re_ok re_match o1 o2 E P c f out1,
+  o_secondary o1 = o_secondary o2 ->
+  run re_ok re_match o1 E P c f = Done out1 ->
+  exists out2, run re_ok re_match o2 E P c f = Done out2 /\
+               out_detail out2 = out_detail out1 /\ out_isexp out2 = out_isexp out1 /\
+               strip (out_trace out2) = strip (out_trace out1).
+Proof. exact observers_are_transparent. Qed.
+Print Assumptions C09_recorder_optional.
